@@ -32,8 +32,8 @@ CLAIMS = {
          "sled itself is outside; a successful write is assumed durable", "4 C16"),
  "C19": ("Every non-multiplicative witness-graph operator equals circom's semantics for ALL canonical operands (full 254-bit width), result canonical, no panic — decided by CBMC over the compiled code behind the ark-ff identity-representation model.",
          "values of Mul/Div/Pow (true products) outside the claim; oracle from circom documentation", "4 C19"),
- "C20": ("graph::evaluate equals a reference interpreter on bounded graphs; input placement independent of map order.",
-         "graphs <= 5 nodes; container round trip only per node", "4 C20"),
+ "C20": ("graph::evaluate equals a direct reference interpretation on 4-node graphs of six fixed shapes for ALL input/constant values; every stored node kind/operator/index (< 2^32) reads back equal.",
+         "graph shapes concrete (symbolic shapes exhaust memory); input placement over std HashMap and the whole-container protobuf round trip are outside the claim", "4 C20"),
 }
 
 NA = {
@@ -67,7 +67,7 @@ def main():
     na = [{"property_id": k, "reason": v} for k, v in sorted(NA.items())]
     for pid in sorted(CLAIMS):
         if pid not in claimed:
-            na.append({"property_id": pid, "reason": "not claimed in this revision: harnesses for this property are not registered yet (see DESIGN.md section 4 for the planned check)"})
+            na.append({"property_id": pid, "reason": "not claimed: the unit this property needs under solver-based checking (regenerated pm_tree_adapter.rs + vacp2p_pmtree tree.rs over a modelled key-value store with a symbolic failure position) was not completed, and sled itself (file I/O, background flusher threads) is out of reach of Kani/CBMC; no weaker substitute is offered (DESIGN.md section 9.4)"})
     m = {
         "version": 1,
         "setup_cmd": "python3 run.py --setup",
